@@ -311,6 +311,22 @@ fn c02(cfg: &CCfg, e: &Exec, f: &Facts, vs: &mut Vec<Violation>, nt: &mut bool) 
                 format!("{inbox} delivered replies left unread with nothing woken"),
             );
         }
+        // everything has settled with the medium taking whatever it is given: what the dispatch
+        // wrote has reached the peer - it is not sitting in the transport's buffer waiting for a
+        // flush nobody is going to ask for (writability returning wakes the dispatch, and the
+        // dispatch acts on it: seeded change C02m flushed only in polls that had written)
+        if alive && cfg.fault.is_none() && !e.recs.iter().any(|r| matches!(r, Rec::T { side: 0, res: Res::Err, .. })) {
+            let written = e.recs[..*q1idx].iter().filter(|r| matches!(r, Rec::T { side: 0, op: Op::Send, res: Res::Ok, .. })).count();
+            let seen = e.recs[..*q1idx].iter().filter(|r| matches!(r, Rec::PeerSaw { side: 0, .. })).count();
+            if written > seen {
+                v(
+                    vs,
+                    "C02-Q1-written-not-flushed",
+                    cfg,
+                    format!("{} of {written} messages the dispatch wrote are still in the transport's buffer at quiescence: the medium is writable, nothing is woken, and no flush is under way", written - seen),
+                );
+            }
+        }
         if alive {
             for (i, (st, polls)) in &f.q1c {
                 if *st == CS_RUNNING
@@ -1466,6 +1482,21 @@ pub fn configs(prop: CProp, tier: Tier) -> Vec<CCfg> {
                                         .collect();
                                     out.push(base(callers, mif, buf, *fl, *cap, alpha));
                                 }
+                            }
+                        }
+                    }
+                }
+            }
+            // a socket whose bytes move only inside flushing calls: when the medium is writable
+            // again the dispatch is woken and has to flush AGAIN for the request to leave
+            // (seeded change C02m flushed only in polls that had written something)
+            for n in 1..=2usize {
+                for mif in 1..=n {
+                    for cap in [1usize, 2] {
+                        for pol in policies(n) {
+                            for dl in [10_000i64, 50] {
+                                let callers = pol.iter().map(|a| CallerCfg { deadline_ms: dl, ..CallerCfg::simple(*a) }).collect();
+                                out.push(base(callers, mif, 1, Flavour::Socket, cap, alpha));
                             }
                         }
                     }
